@@ -5,15 +5,14 @@ from .ctx import where_of
 from . import c06
 
 EXPLANATION = (
-    "A necessary condition of the round trip: the printer's and the reader's tables agree.  (token-tables) every literal "
-    "piece the printer emits for the readable subset — read from the format templates of Display for Value, Number, "
-    "ValueReference<Vec<_>> and GenericPair per variant — is fed to the lexer's decision tables extracted for C06: `#t`/`#f` "
-    "are read as the Boolean of the same value, `#\\`+c as a Character, `#(` as the vector opener, `(`/`)` as parentheses, the "
-    "element separators are whitespace, ` . ` is a Period, `/` leads the number scanner to its ratio exit; (number-alphabet) "
-    "integers and both ratio components are printed with i32's Display and reals with the real type's Debug, whose alphabets "
-    "the number scanner accepts (a sign only in front, so a negative denominator must never be printed: C09-denominator-sign "
-    "is re-run here); (dotted) ` . ` is written only on the non-pair-cdr edge, ` ` only before a following pair, nothing for "
-    "the empty list.")
+    "A necessary condition of the round trip: the printer's and the reader's tables agree.  Fifteen value "
+    "skeletons with opaque leaves are printed by abstract interpretation of the crate's Display impls (formatting "
+    'model: format_args templates, Display chosen by value type), the leaves are filled with atoms and the text '
+    'is lexed by the abstract lexer run: booleans, characters, vectors, proper / dotted / nested lists, the empty '
+    'list, integers, ratios (payload order numerator/denominator) read back as tokens of the same structure; the '
+    'formatter chosen for each numeric payload; exact text of list skeletons (` . ` only before a non-pair tail); '
+    'ten number spellings through the lexer; non-positive denominators are never built (C09-denominator-sign re- '
+    'run).')
 NOT_DECIDED = ("the round trip itself (read(print(v)) = v for every value), injectivity of printing, and std's float "
                "formatting/parsing — that is most of the property.")
 
@@ -90,7 +89,7 @@ def run(ctx):
                 label, txt, got, want), where_of(vf))
     # characters: `#\` followed by the character itself
     m_ = printtables.Mk(fb)
-    for ch in "a(1 ;\"":
+    for ch in "a(1 ;\"'\\#|\t\u03bb":
         t = printtables.print_value(fb, m_.value("Character", ord(ch)))
         key = "print-read/char-%d" % ord(ch)
         if isinstance(t, tuple) or not isinstance(t, str):
